@@ -1462,6 +1462,66 @@ variant('t-collector-run-temp', ['C01', 'C07'], COL,
         "        if self.error:\n            raise self.error\n\n        return self.values",
         "        error = self.error\n        if error is not None:\n            raise error\n\n        return self.values",
         kind='twin')
+TG = 'rsocket/extensions/tagging.py'
+variant('b-tags-loop-stops-one-short', ['C18'], TG,
+        "        while offset < len(buffer):", "        while offset < len(buffer) - 1:",
+        ('C18.i', 'TaggingMetadata.parse'))
+variant('b-composite-loop-stops-one-short', ['C18'], 'rsocket/extensions/composite_metadata.py',
+        "        while offset < composite_length:", "        while offset + 1 < composite_length:",
+        ('C18.i', 'CompositeMetadata.parse'))
+variant('t-tags-length-by-index', ['C18', 'C12'], TG,
+        "            tag_length = struct.unpack('>B', buffer[offset:offset + 1])[0]",
+        "            tag_length = buffer[offset]", kind='twin')
+variant('t-tags-copied-to-bytes', ['C18', 'C12'], TG,
+        "            self.tags.append(buffer[offset:offset + tag_length])",
+        "            self.tags.append(bytes(buffer[offset:offset + tag_length]))", kind='twin')
+variant('t-tags-bound-hoisted', ['C18', 'C12'], TG,
+        "        offset = 0\n\n        while offset < len(buffer):",
+        "        offset = 0\n        end = len(buffer)\n\n        while offset < end:", kind='twin')
+SCF = 'rsocket/stream_control.py'
+_INIT_OLD = "        self._first_stream_id = (first_stream_id - 2) & MAX_STREAM_ID\n        self._current_stream_id = self._first_stream_id\n"
+_INIT_NEW = "        self._first_stream_id = first_stream_id\n        self._current_stream_id = (first_stream_id - 2) & MAX_STREAM_ID\n"
+_INC_OLD = "        self._current_stream_id = (self._current_stream_id + 2) & self._maximum_stream_id\n"
+_INC_NEW = ("        next_stream_id = self._current_stream_id + 2\n\n        if next_stream_id %s self._maximum_stream_id:\n"
+            "            next_stream_id = self._first_stream_id\n\n        self._current_stream_id = next_stream_id\n")
+variant_multi('b-id-wrap-one-step-early', ['C13'], [(SCF, _INIT_OLD, _INIT_NEW), (SCF, _INC_OLD, _INC_NEW % '>=')],
+              ('C13.f', 'StreamControl._increment_stream_id'))
+variant_multi('t-id-compare-and-wrap', ['C13', 'C08'], [(SCF, _INIT_OLD, _INIT_NEW), (SCF, _INC_OLD, _INC_NEW % '>')],
+              kind='twin')
+variant('b-adapter-returns-coroutine-unawaited', ['C15', 'C20'], 'rsocket/reactivex/reactivex_handler_adapter.py',
+        "        await self.delegate.on_keepalive_timeout(time_since_last_keepalive, rsocket)",
+        "        return self.delegate.on_keepalive_timeout(time_since_last_keepalive, rsocket)",
+        ('C15.d', 'on_keepalive_timeout'))
+variant('b-timeout-callback-not-awaited', ['C15'], 'rsocket/rsocket_client.py',
+        "await self._handler.on_keepalive_timeout(", "self._handler.on_keepalive_timeout(",
+        ('C15', 'on_keepalive_timeout'))
+variant('b-close-forgets-setup-payload', ['C16'], RB,
+        "        await self._close_transport()\n\n    async def _stop_tasks(self):",
+        "        await self._close_transport()\n        self._setup_payload = None\n\n    async def _stop_tasks(self):",
+        ('C16.e', '_setup_payload'))
+variant('b-reset-clears-lease-flag', ['C16'], RB,
+        "    async def _stop_tasks(self):\n        logger().debug('%s: Cleanup', self._log_identifier())\n",
+        "    async def _stop_tasks(self):\n        logger().debug('%s: Cleanup', self._log_identifier())\n        self._honor_lease = False\n",
+        ('C16.e', '_honor_lease'))
+variant('b-routing-handler-swallows-cancellation', ['C11'], 'rsocket/routing/routing_request_handler.py',
+        "            return await self._parse_and_route(FrameType.REQUEST_RESPONSE, payload)\n        except Exception as exception:",
+        "            return await self._parse_and_route(FrameType.REQUEST_RESPONSE, payload)\n        except BaseException as exception:",
+        ('C11.m', 'RoutingRequestHandler.request_response'))
+variant('b-rx-terminal-credit-top-up', ['C20', 'C06'], 'rsocket/reactivex/back_pressure_publisher.py',
+        "            async_generator = observable_to_async_event_generator(wrapped_observable)\n            return from_async_event_generator(async_generator, feedback)",
+        "            async_generator = observable_to_async_event_generator(wrapped_observable)\n            feedback.on_next(1)\n            return from_async_event_generator(async_generator, feedback)",
+        ('C20.i', 'reactivex back_pressure_publisher'))
+variant('b-rx-request-forwards-one-more', ['C20', 'C06'], 'rsocket/rx_support/back_pressure_publisher.py',
+        "        self._feedback.on_next(n)", "        self._feedback.on_next(n + 1)",
+        ('C', 'back_pressure_publisher'))
+variant('b-aiohttp-server-yields-every-message', ['C12'], AIO,
+        "                if msg.type == aiohttp.WSMsgType.BINARY:\n                    yield msg.data",
+        "                if msg.type == aiohttp.WSMsgType.ERROR:\n                    break\n                yield msg.data",
+        ('C12.h', 'TransportAioHttpWebsocket.handle_incoming_ws_messages'))
+variant('b-aiohttp-client-no-type-filter', ['C12'], AIO,
+        "                if msg.type == aiohttp.WSMsgType.BINARY:\n                    async for frame in self._frame_parser.receive_data(msg.data, 0):\n                        self._incoming_frame_queue.put_nowait(frame)",
+        "                async for frame in self._frame_parser.receive_data(msg.data, 0):\n                    self._incoming_frame_queue.put_nowait(frame)",
+        ('C12.h', 'TransportAioHttpClient.handle_incoming_ws_messages'))
 variant('b-send-error-noop', ['C12'], RB,
         "        self.send_frame(exception_to_error_frame(stream_id, exception))",
         "        logger().error('error on stream %s: %s', stream_id, exception)", ('C12.b', 'RSocketBase.send_error'))
